@@ -85,6 +85,21 @@ Section C12.
        \/ (exists c ans, In c (o_calls o) /\ c_answer c = Some ans /\ In ((rq_server r, kid), rec) ans)).
   Proof. exact (thm_verify_jsons_sound M kids_of vj). Qed.
 
+  (* the database is asked exactly for the (server, supported key id) pairs of the requests, each
+     with the largest timestamp any request needs it for *)
+  Theorem database_asked_only_for_needed_pairs : forall now dbf dbs fs reqs kr k t,
+    o_dbcall (verify_jsons now dbf dbs fs reqs) = Some kr -> mfind k kr = Some t ->
+    exists r ids, In r reqs /\ fst k = rq_server r /\ t = rq_at r /\
+                  kids_of (rq_server r) (rq_msg r) = Some ids /\ In (snd k) ids /\ supported (snd k) = true.
+  Proof. exact (thm_database_asked_only_for_needed_pairs M kids_of vj). Qed.
+
+  Theorem database_asked_for_every_needed_pair : forall now dbf dbs fs reqs r ids kid,
+    In r reqs -> kids_of (rq_server r) (rq_msg r) = Some ids -> In kid ids -> supported kid = true ->
+    0 <= rq_at r ->
+    exists kr t, o_dbcall (verify_jsons now dbf dbs fs reqs) = Some kr /\
+                 mfind (rq_server r, kid) kr = Some t /\ rq_at r <= t.
+  Proof. exact (thm_database_asked_for_every_needed_pair M kids_of vj). Qed.
+
   (* every recorded call is a call of the configured fetcher with that index on the recorded
      request map, and fetchers are called at most once each, in order *)
   Theorem fetcher_calls_are_faithful : forall now dbf dbs fs reqs c,
@@ -309,6 +324,8 @@ Print Assumptions was_valid_at_spec.
 Print Assumptions strict_check_wraps_above_int64.
 Print Assumptions verify_jsons_shape.
 Print Assumptions verify_jsons_sound.
+Print Assumptions database_asked_only_for_needed_pairs.
+Print Assumptions database_asked_for_every_needed_pair.
 Print Assumptions fetcher_calls_are_faithful.
 Print Assumptions fetcher_calls_in_order.
 Print Assumptions verify_jsons_complete.
